@@ -1,41 +1,234 @@
-"""contracts.nodes_proc -- process bodies of the nodes against the abstract edge interface (stub, filled in below)"""
-from pyvc.values import Unsupported
+"""contracts.nodes_proc -- process bodies of the nodes, verified against the ABSTRACT EDGE INTERFACE.
+
+Abstract edge (what a node may assume about any Buffer / Fleet / ConveyorBelt, proved separately for each
+concrete edge class on top of its store's contracts):
+
+  t = e.reserve_put() / e.reserve_get()   fresh token t owned by the calling process, not consumed; it may or may not
+                                          be triggered (granted) already.  After e.can_put() / e.can_get() answered b in
+                                          the same atomic segment, the token is triggered iff b.
+  e.put(t, x)     requires: t is a put token of e, owned by the caller, triggered, not consumed
+                  effect:   t consumed, x handed over to e exactly once, truthy result, no exception
+  x = e.get(t)    requires: t is a get token of e, owned, triggered, not consumed;  effect: t consumed, x = bound[t]
+  e.reserve_put_cancel(t) / e.reserve_get_cancel(t)  (also reached through t.resourcename):
+                  requires: t is an un-consumed token of e of that kind; effect: t consumed, returns True
+  rely at every yield: an un-consumed token of this process stays un-consumed, a triggered one stays triggered,
+                  pending ones may become triggered; simulated time does not decrease.
+
+Tokens and items are linear ghost resources: at every loop head / function exit every token created since the
+last head is consumed and every item taken in hand has been handed over exactly once or counted as discarded.
+"""
+import ast
+import z3
+from pyvc import values as V
+from pyvc import logic
+from pyvc.logic import Forall, Exists
+from pyvc.contract import FnContract, Def, DefHeap, DefRes, Clause, ExcCase, Structural, apply_contract, PostCtx
+from pyvc.execute import (Exc, Outcome, FieldRef, Exec, SelfRef, EnvRef, VTimeout, VGen, VAnyOf, VPyList, RecRef)
+from pyvc.values import Num, VObj, VBool, VStr, VOpaque, VNone, NONE, SList, Unsupported, VDyn, VOpt, VTuple
+
+PUT, GET = 1, 2
+EDGE_CLASSES = ("Buffer", "Fleet", "ConveyorBelt")
 
 
-def install(lib):
-    pass
+def _n():
+    return logic.fresh("n").decl().name().split("!")[1]
 
 
-def chi(lib, cls, name, old, args):
-    return None
+def sc(s):
+    return V.str_const(s)
 
 
-def has_attr(lib, ex, v, name, st):
-    return None
+def sel(st, attr, t):
+    return z3.Select(st.heap_arr(attr), t)
 
 
-def call_env(lib, ex, name, args, kw, st, node):
-    raise Unsupported("env.%s() (line %d)" % (name, node.lineno))
+# ---------------------------------------------------------------------------
+# edge / store objects
+
+
+def store_of_edge(st, e):
+    return sel(st, "edge_store", e)
+
+
+def base_store(st, base):
+    """store identity behind an edge object or a store object"""
+    return store_of_edge(st, base.t) if base.kind == "edge" else base.t
+
+
+def new_token(ex, st, store, kind, lineno, granted=None):
+    s = st.fork()
+    t = s.fresh_obj("event")
+    for attr, val in (("tok_consumed", VBool(False)), ("tok_kind", Num(kind)), ("requesting_process", VObj(s.active, "proc")),
+                      ("resourcename", VObj(store, "store"))):
+        s.heap_set(t, attr, val)
+    g = z3.Bool("granted!%s" % _n()) if granted is None else granted
+    s.heap_set(t, "triggered", VBool(g))
+    if kind == GET:
+        # the item bound to a granted retrieval: a real flow item, distinct for distinct tokens (C02 of the store)
+        s.heap_arr("tok_bound")
+    s.ghost.setdefault("tokens", []).append(("one", t.t, kind, store, lineno))
+    s.ghost["epoch"] = s.ghost.get("epoch", 0) + 1
+    return t, s
+
+
+def use_token(ex, st, base, tok, kind, what, lineno, props):
+    """protocol obligations for put/get/cancel with token `tok` on `base`; returns (state with token consumed)"""
+    ctx = ex.ctx
+    if isinstance(tok, (VNone,)) or not isinstance(tok, (VObj, VOpt)):
+        ctx.oblige("protocol.%s.token-is-a-reservation@L%d" % (what, lineno), st, [z3.BoolVal(False)], "call-pre", lineno, props)
+        return None
+    if isinstance(tok, VOpt):
+        ctx.oblige("protocol.%s.token-is-a-reservation@L%d" % (what, lineno), st, [z3.Not(tok.isnone)], "call-pre", lineno, props)
+        st = st.fork().assume(z3.Not(tok.isnone))
+        tok = tok.val
+    t = tok.t
+    store = base_store(st, base)
+    goals = [("token-of-this-edge", sel(st, "resourcename", t) == store),
+             ("token-kind", sel(st, "tok_kind", t) == kind),
+             ("token-not-used-or-cancelled-before", z3.Not(sel(st, "tok_consumed", t)))]
+    if what in ("put", "get"):
+        goals += [("token-granted", sel(st, "triggered", t)), ("token-own", sel(st, "requesting_process", t) == st.active)]
+    for nm, g in goals:
+        ctx.oblige("protocol.%s.%s@L%d" % (what, nm, lineno), st, [g], "call-pre", lineno, props)
+    s = st.fork()
+    for nm, g in goals:
+        s.assume(g)
+    s.heap_set(VObj(t, "event"), "tok_consumed", VBool(True))
+    s.ghost["epoch"] = s.ghost.get("epoch", 0) + 1
+    return s
+
+
+def edge_call(lib, ex, base, name, args, kw, st, node):
+    lineno = node.lineno
+    store = base_store(st, base)
+    if name in ("reserve_put", "reserve_get"):
+        kind = PUT if name == "reserve_put" else GET
+        granted = None
+        fact = st.ghost.get("can_fact")
+        if fact is not None and fact[3] == st.ghost.get("epoch", 0) and fact[0] == kind:
+            # can_put()/can_get() was asked in this very state on the same edge (checked semantically)
+            granted = z3.If(fact[1] == store, fact[2], z3.Bool("granted!%s" % _n()))
+        t, s = new_token(ex, st, store, kind, lineno, granted)
+        return [(t, s)]
+    if name in ("put", "get"):
+        kind = PUT if name == "put" else GET
+        s = use_token(ex, st, base, args[0] if args else NONE, kind, name, lineno, ("C07", "C01", "C02", "C20"))
+        if s is None:
+            return [(Exc("RuntimeError", lineno, "ill-formed %s" % name), st)]
+        if name == "put":
+            if len(args) < 2:
+                raise Unsupported("put without item")
+            x = args[1]
+            if isinstance(x, VOpt):
+                ex.ctx.oblige("protocol.put.item-is-not-None@L%d" % lineno, s, [z3.Not(x.isnone)], "call-pre", lineno, ("C03",))
+                s.assume(z3.Not(x.isnone))
+                x = x.val
+            if not isinstance(x, VObj):
+                raise Unsupported("put of %r" % (x,))
+            s.ghost.setdefault("puts", []).append((x.t, store, lineno))
+            return [(VBool(True), s)]
+        tok = args[0].val if isinstance(args[0], VOpt) else args[0]
+        item = VObj(sel(s, "tok_bound", tok.t), "item")
+        s.assume(item.t >= 0)
+        s.ghost.setdefault("gets", []).append((item.t, store, lineno))
+        return [(item, s)]
+    if name in ("reserve_put_cancel", "reserve_get_cancel"):
+        kind = PUT if "put" in name else GET
+        s = use_token(ex, st, base, args[0] if args else NONE, kind, name, lineno, ("C07", "C10"))
+        if s is None:
+            return [(Exc("RuntimeError", lineno, "ill-formed cancel"), st)]
+        return [(VBool(True), s)]
+    if name in ("can_put", "can_get"):
+        b = z3.Bool("%s!%s" % (name, _n()))
+        s = st.fork()
+        s.ghost["can_fact"] = (PUT if name == "can_put" else GET, store, b, s.ghost.get("epoch", 0))
+        return [(VBool(b), s)]
+    raise Unsupported("%s.%s() at line %d" % (base.kind, name, lineno))
+
+
+# ---------------------------------------------------------------------------
+# executor hooks
 
 
 def call_obj(lib, ex, base, name, args, kw, st, node):
+    if base.kind in ("edge", "store"):
+        return edge_call(lib, ex, base, name, args, kw, st, node)
+    if base.kind == "resource":
+        if name == "request":
+            s = st.fork()
+            r = s.fresh_obj("request")
+            s.ghost.setdefault("requests", []).append(r.t)
+            return [(VObj(r.t, "request"), s)]
+        if name == "release":
+            return [(VObj(args[0].t, "release"), st)]
+    if base.kind == "item":
+        return item_call(lib, ex, base, name, args, kw, st, node)
     raise Unsupported("%s.%s() (line %d)" % (base.kind, name, node.lineno))
 
 
+def item_call(lib, ex, base, name, args, kw, st, node):
+    """BaseFlowItem methods by contract (helper/baseflowitem.py units verify them)"""
+    s = st.fork()
+    if name == "set_creation":
+        s.heap_set(base, "timestamp_creation", Num(s.now))
+        return [(NONE, s)]
+    if name == "update_node_event":
+        how = args[2] if len(args) > 2 else kw.get("event_type", VStr("entry"))
+        s.heap_set(base, "timestamp_node_entry", V.ite(V.eq(how, VStr("entry")), Num(s.now), s.heap_get(base, "timestamp_node_entry")))
+        s.heap_set(base, "timestamp_node_exit", V.ite(V.eq(how, VStr("exit")), Num(s.now), s.heap_get(base, "timestamp_node_exit")))
+        return [(NONE, s)]
+    if name == "add_item":
+        s.ghost.setdefault("packed", []).append((args[0].t, base.t, node.lineno))
+        return [(NONE, s)]
+    raise Unsupported("item.%s() (line %d)" % (name, node.lineno))
+
+
 def obj_attr(lib, ex, base, attr, st, lineno):
-    import z3
-    from pyvc import values as V
     if base.kind == "resource" and attr == "users":
-        n = z3.Select(st.heap_arr("res_users"), base.t)
-        return [(V.SList(n, lambda i: V.VOpaque("request"), ("any",)), st)]
+        n = sel(st, "res_users", base.t)
+        return [(SList(n, lambda i: VOpaque("request"), ("any",)), st)]
+    if base.kind == "edge":
+        cls = sel(st, "edge_cls", base.t)
+        if attr == "__class__":
+            return [(VObj(base.t, "edgeclass"), st)]
+        if attr == "id":
+            return [(VOpaque("edge-id"), st)]
+        if attr == "inbuiltstore":
+            outs, ok = ex.raise_if(st, z3.Not(z3.Or(cls == sc("Buffer"), cls == sc("Fleet"))), "AttributeError", lineno,
+                                   "conveyors have no inbuiltstore")
+            if ok is not None:
+                outs.append((VObj(store_of_edge(ok, base.t), "store"), ok))
+            return outs
+        if attr == "belt":
+            outs, ok = ex.raise_if(st, cls != sc("ConveyorBelt"), "AttributeError", lineno, "only conveyors have a belt")
+            if ok is not None:
+                outs.append((VObj(store_of_edge(ok, base.t), "store"), ok))
+            return outs
+        raise Unsupported("edge.%s (line %d)" % (attr, lineno))
+    if base.kind == "edgeclass" and attr == "__name__":
+        return [(VStr(sel(st, "edge_cls", base.t)), st)]
+    if base.kind == "event" and attr == "resourcename":
+        return [(VObj(sel(st, "resourcename", base.t), "store"), st)]
+    if base.kind == "item" and attr == "id":
+        return [(VOpaque("item-id"), st)]
     return [(st.heap_get(base, attr), st)]
 
 
 def set_obj_attr(lib, ex, base, attr, v, st, lineno):
+    if base.kind == "item" and attr in ("length",):
+        st.heap_set(base, attr, V.as_num(v) if not isinstance(v, VDyn) else Num(v.num))
+        return [Outcome("next", st)]
+    if base.kind == "proc" and attr == "item_to_put":
+        st.heap_set(base, attr, v.val if isinstance(v, VOpt) else v)
+        return [Outcome("next", st)]
     return None
 
 
-def listcomp(lib, ex, node, st):
+def has_attr(lib, ex, v, name, st):
+    if isinstance(v, VObj) and v.kind == "item" and name in ("conveyor_entry_time",):
+        return VBool(z3.Bool("has_%s!%s" % (name, _n())))
+    if isinstance(v, VOpt) and isinstance(v.val, VObj):
+        return has_attr(lib, ex, v.val, name, st)
     return None
 
 
@@ -45,3 +238,247 @@ def get_attr_other(lib, ex, base, attr, st, lineno):
 
 def call_other(lib, ex, base, name, args, kw, st, node):
     return None
+
+
+def call_env(lib, ex, name, args, kw, st, node):
+    if name == "timeout":
+        d = args[0]
+        if isinstance(d, VDyn):
+            ex.ctx.oblige("call.timeout.delay-is-a-number@L%d" % node.lineno, st, [d.is_num()], "call-pre", node.lineno, ("C20",))
+            d = Num(d.num)
+        d = V.as_num(d)
+        ex.ctx.oblige("call.timeout.delay-nonneg@L%d" % node.lineno, st, [d.t >= 0], "call-pre", node.lineno, ("C20",))
+        return [(VTimeout(d), st)]
+    if name == "any_of":
+        lst = ex.deref(args[0], st)
+        if isinstance(lst, VPyList):
+            return [(VAnyOf(lst.items), st)]
+        if isinstance(lst, SList):
+            return [(VAnyOf(lst), st)]
+        raise Unsupported("any_of over %r (line %d)" % (lst, node.lineno))
+    if name == "process":
+        g = args[0]
+        if not isinstance(g, VGen):
+            raise Unsupported("env.process of %r" % (g,))
+        s = st.fork()
+        p = s.fresh_obj("proc")
+        s.ghost.setdefault("spawned", []).append((g.name, g.args, p.t))
+        v = VObj(p.t, "proc")
+        v.gen = g
+        return [(v, s)]
+    raise Unsupported("env.%s() (line %d)" % (name, node.lineno))
+
+
+def listcomp(lib, ex, node, st):
+    """[edge.reserve_put() for edge in self.out_edges] / [edge.inbuiltstore.reserve_get() for edge in self.in_edges]:
+    one fresh token per edge (a token family)"""
+    if len(node.generators) != 1 or node.generators[0].ifs:
+        return None
+    g = node.generators[0]
+    elt = node.elt
+    if not (isinstance(elt, ast.Call) and isinstance(elt.func, ast.Attribute) and elt.func.attr in ("reserve_put", "reserve_get")
+            and isinstance(g.target, ast.Name)):
+        return None
+    via_store = False
+    recv = elt.func.value
+    if isinstance(recv, ast.Attribute) and recv.attr == "inbuiltstore" and isinstance(recv.value, ast.Name) \
+            and recv.value.id == g.target.id:
+        via_store = True
+    elif not (isinstance(recv, ast.Name) and recv.id == g.target.id):
+        return None
+    kind = PUT if elt.func.attr == "reserve_put" else GET
+    outs = []
+    for it, s in ex.eval(g.iter, st):
+        if isinstance(it, Exc):
+            outs.append((it, s))
+            continue
+        lst = ex.deref(it, s)
+        if isinstance(lst, VOpt):
+            exs, ok = ex.raise_if(s, lst.isnone, "TypeError", node.lineno, "iteration over None")
+            outs.extend(exs)
+            if ok is None:
+                continue
+            s, lst = ok, lst.val
+        if not isinstance(lst, SList):
+            raise Unsupported("comprehension over %r" % (lst,))
+        s = s.fork()
+        if via_store:
+            # edge.inbuiltstore exists only on Buffer and Fleet edges
+            bad = Exists(1, lambda i: z3.And(0 <= i, i < lst.len, z3.Not(z3.Or(
+                sel(s, "edge_cls", lst.at(i).t) == sc("Buffer"), sel(s, "edge_cls", lst.at(i).t) == sc("Fleet")))), [lst.len], "conv")
+            ex.ctx.oblige("no-AttributeError.inbuiltstore@L%d" % node.lineno, s,
+                          [Forall(1, lambda i: z3.Implies(z3.And(0 <= i, i < lst.len), z3.Or(
+                              sel(s, "edge_cls", lst.at(i).t) == sc("Buffer"), sel(s, "edge_cls", lst.at(i).t) == sc("Fleet"))),
+                              [lst.len], "has-store")], "noexc", node.lineno, ("C20",))
+        base = s.next_id
+        n = lst.len
+        s.next_id = s.next_id + n
+        tag = "fam%s" % _n()
+        # family: token i has identity base+i ; its attributes are given by quantified facts
+        fam = SList(n, lambda i: VObj(base + i, "event"), ("obj", "event"))
+        for attr in ("tok_consumed", "tok_kind", "requesting_process", "resourcename", "triggered"):
+            s.heap_arr(attr)
+            old = s.h[attr]
+            s.havoc_heap(attr, tag)
+            new = s.h[attr]
+            # frame: identities below base keep their attributes
+            s.assume(Forall(1, (lambda old, new: lambda t: z3.Implies(z3.Or(t < base, t >= base + n),
+                                                                      z3.Select(new, t) == z3.Select(old, t)))(old, new),
+                            [base], "frame." + attr))
+        s.assume(Forall(1, lambda i: z3.Implies(z3.And(0 <= i, i < n), z3.And(
+            z3.Not(sel(s, "tok_consumed", base + i)), sel(s, "tok_kind", base + i) == kind,
+            sel(s, "requesting_process", base + i) == s.active,
+            sel(s, "resourcename", base + i) == store_of_edge(s, lst.at(i).t))), [n], "family"))
+        s.ghost.setdefault("tokens", []).append(("fam", fam, kind, lst, node.lineno, base))
+        s.ghost["epoch"] = s.ghost.get("epoch", 0) + 1
+        outs.append((fam, s))
+    return outs
+
+
+# ---------------------------------------------------------------------------
+# yields
+
+
+class Yields:
+    def __init__(self, lib, cls, con, old, args):
+        self.lib, self.cls, self.con, self.old, self.args = lib, cls, con, old, args
+
+    def on_yield(self, ex, ordinal, ynode, value, st):
+        lib = self.lib
+        ctx = ex.ctx
+        lineno = ynode.lineno
+        hook = getattr(self.con, "at_yield", None)
+        if hook:
+            hook(ex, ordinal, ynode, value, st)
+        s = st.fork()
+        tag = "y%d_%s" % (ordinal, _n())
+        waited = None
+        result = NONE
+        # ---- what the process waits for
+        if isinstance(value, VTimeout):
+            s.now = st.now + value.delay.t
+            waited = value.delay.t > 0
+        elif isinstance(value, VObj) and value.kind == "event":
+            waited = z3.Not(sel(st, "triggered", value.t))
+        elif isinstance(value, VAnyOf):
+            waited = None
+        elif isinstance(value, VObj) and value.kind == "request":
+            waited = None
+        elif isinstance(value, VObj) and value.kind == "release":
+            waited = z3.BoolVal(False)
+        elif isinstance(value, VObj) and value.kind == "proc" and getattr(value, "gen", None) is not None:
+            return self.run_subprocess(ex, ordinal, ynode, value, st)
+        else:
+            raise Unsupported("yield of %r (line %d)" % (value, lineno))
+        # ---- rely: time does not decrease, our tokens stay ours, triggered stays triggered
+        if not isinstance(value, VTimeout):
+            now2 = z3.Real(tag + ".now")
+            s.assume(now2 >= st.now)
+            s.now = now2
+        s.heap_arr("triggered")
+        oldtr = s.h["triggered"]
+        s.havoc_heap("triggered", tag)
+        newtr = s.h["triggered"]
+        s.assume(Forall(1, lambda t: z3.Implies(z3.Select(oldtr, t), z3.Select(newtr, t)), [st.next_id], "rely.granted-stays-granted"))
+        for grp in s.ghost.get("tokens", []):
+            if grp[0] == "one":
+                s.assume(z3.Implies(z3.Select(oldtr, grp[1]), z3.Select(newtr, grp[1])))
+        nid = z3.Int(tag + ".next_id")
+        s.assume(nid >= s.next_id)
+        s.next_id = nid
+        s.ghost["epoch"] = s.ghost.get("epoch", 0) + 1
+        s.ghost.pop("can_fact", None)
+        # node fields shared with the node's other processes
+        for fname in getattr(self.con, "shared_fields", ()):
+            if fname in s.f:
+                from pyvc.contract import _fresh_like
+                s.f[fname] = _fresh_like(s.f[fname], "%s.%s" % (tag, fname))
+        rel = getattr(self.con, "rely", None)
+        if rel:
+            for nm, cl in rel(st, s):
+                s.assume(cl)
+        # ---- resumption guarantee
+        if isinstance(value, VObj) and value.kind == "event":
+            s.assume(z3.Select(newtr, value.t))
+        elif isinstance(value, VAnyOf):
+            mem = value.members
+            if isinstance(mem, SList):
+                s.assume(Exists(1, lambda i: z3.And(0 <= i, i < mem.len, z3.Select(newtr, mem.at(i).t)), [mem.len], "any_of"))
+                ctx.oblige("yield%d.any_of-has-members@L%d" % (ordinal, lineno), st, [mem.len >= 1], "yield", lineno, ("C20",))
+            else:
+                ts = [m for m in mem if isinstance(m, VObj)]
+                s.assume(z3.Or(*[z3.Select(newtr, m.t) for m in ts]))
+        elif isinstance(value, VObj) and value.kind == "request":
+            res = self.lib_resource(st)
+            if res is not None:
+                s.heap_set(VObj(res, "resource"), "res_users", Num(sel(st, "res_users", res) + 1))
+                s.assume(sel(st, "res_users", res) + 1 <= sel(st, "res_capacity", res))
+            s.ghost.setdefault("slots", []).append(value.t)
+        elif isinstance(value, VObj) and value.kind == "release":
+            res = self.lib_resource(st)
+            held = s.ghost.get("slots", [])
+            ctx.oblige("yield%d.release-of-a-held-slot@L%d" % (ordinal, lineno), st,
+                       [z3.Or(*[h == value.t for h in held]) if held else z3.BoolVal(False)], "yield", lineno, ("C08",))
+            if res is not None:
+                s.heap_set(VObj(res, "resource"), "res_users", Num(sel(st, "res_users", res) - 1))
+            s.ghost["slots"] = [h for h in held if not h.eq(value.t)]
+            s.ghost["released"] = True
+        s.ghost.setdefault("waits", []).append((lineno, waited, type(value).__name__))
+        return [(result, s)]
+
+    def lib_resource(self, st):
+        wt = st.f.get("worker_thread")
+        return wt.t if isinstance(wt, VObj) else None
+
+    def run_subprocess(self, ex, ordinal, ynode, value, st):
+        """yield env.process(self._push_item(item, edge)): the sub-process runs to completion under its own contract"""
+        g = value.gen
+        con = self.lib.contracts[self.cls].get(g.name)
+        if con is None:
+            raise Unsupported("sub-process %s has no contract" % g.name)
+        outs = []
+        for v, s in apply_contract(ex, con, g.args, st, ynode.lineno, self.lib, self.cls):
+            if isinstance(v, Exc):
+                outs.append((v, s))
+            else:
+                s.ghost["epoch"] = s.ghost.get("epoch", 0) + 1
+                s.ghost.pop("can_fact", None)
+                outs.append((NONE, s))
+        return outs
+
+
+# ---------------------------------------------------------------------------
+# linearity obligations
+
+
+def tokens_consumed_clauses(st, since=0):
+    out = []
+    for k, grp in enumerate(st.ghost.get("tokens", [])[since:]):
+        if grp[0] == "one":
+            out.append(("token@L%d-used-or-cancelled" % grp[4], sel(st, "tok_consumed", grp[1])))
+        else:
+            fam, base = grp[1], grp[5]
+            out.append(("tokens@L%d-all-used-or-cancelled" % grp[4],
+                        Forall(1, lambda i, fam=fam: z3.Implies(z3.And(0 <= i, i < fam.len), sel(st, "tok_consumed", fam.at(i).t)),
+                               [fam.len], "linear")))
+    return out
+
+
+def put_count(st, item):
+    ps = st.ghost.get("puts", [])
+    return z3.Sum([z3.If(p[0] == item, 1, 0) for p in ps]) if ps else z3.IntVal(0)
+
+
+def install(lib):
+    from contracts import nodes_sink, nodes_machine, nodes_source
+    nodes_sink.install(lib)
+    nodes_source.install(lib)
+    nodes_machine.install(lib)
+
+
+def chi(lib, cls, name, old, args):
+    if name == "always":
+        return None
+    if name == "conveyor-edge":
+        return None
+    raise KeyError(name)
